@@ -238,6 +238,8 @@ static void runPlace(Rd &r) {
   int nn = (int)r.nx();
   struct N { std::vector<int> c, xo, yo; float w; }; std::vector<N> nets;
   for (int i = 0; i < nn; ++i) { N n; int np = (int)r.nx(); n.w = (float)r.nx() / 4.0f; for (int j = 0; j < np; ++j) { n.c.push_back((int)r.nx()); n.xo.push_back((int)r.nx()); n.yo.push_back((int)r.nx()); } nets.push_back(n); }
+  int effort = 3; std::vector<std::pair<int, double>> pv;
+  if (r.more()) { int np = (int)r.nx(); for (int i = 0; i < np; ++i) { int id = (int)r.nx(); double n = (double)r.nx(), d = (double)r.nx(); if (id == 0) effort = (int)n; else pv.emplace_back(id, n / d); } }
   std::string out, wts;
   for (int k = 0; k < 5; ++k) {
     float f = kPlaceFactors[k];
@@ -252,15 +254,17 @@ static void runPlace(Rd &r) {
       wts = " # W"; for (int i = 0; i < xt.nbNets(); ++i) wts += " " + showf(xt.netWeight(i));
       wts += " / "; for (int i = 0; i < yt.nbNets(); ++i) wts += " " + showf(yt.netWeight(i));
     }
-    ColoquinteParameters p(3, seed);
+    ColoquinteParameters p(effort, seed);
     p.global.maxNbSteps = maxsteps;
     p.global.continuousModel.netModel = optOf(model);
+    for (auto &q : pv) setPlaceParam(p, q.first, q.second);
+    if (k == 0) { try { p.check(); } catch (std::exception &ex) { printf("REJECTED %s\n", ex.what()); return; } }
     p.global.penalty.initialValue *= f;
     std::string tr;
-    auto dump = [&]() { tr += "T"; for (int i = 0; i < nc; ++i) { char buf[48]; snprintf(buf, 48, " %d %d", c.cellX()[i], c.cellY()[i]); tr += buf; } tr += ";"; };
-    PlacementCallback cb = [&](PlacementStep) { dump(); };
+    auto dump = [&](char s) { tr += "T"; tr += s; for (int i = 0; i < nc; ++i) { char buf[48]; snprintf(buf, 48, " %d %d", c.cellX()[i], c.cellY()[i]); tr += buf; } tr += ";"; };
+    PlacementCallback cb = [&](PlacementStep st) { dump(st == PlacementStep::LowerBound ? 'L' : st == PlacementStep::UpperBound ? 'U' : st == PlacementStep::PenaltyUpdate ? 'P' : 'D'); };
     c.placeGlobal(p, cb);
-    dump();
+    dump('F');
     if (k) out += " | ";
     out += tr;
   }
@@ -447,6 +451,8 @@ int main(int argc, char **argv) {
         static const char *tols[] = {"8589935 43", "11258999 40", "13743895 37"};
         printf("SOLVE %d %s %d %s\n", kind, tols[g.uni(0, 2)], (int)g.uni(100, 1000), genBody(g, g.coin(30), m, pen, true).c_str());
       }
+    } else if (what == "placep") {
+      for (int i = 0; i < count; ++i) printf("%s\n", genPlaceP(g).c_str());
     } else {
       for (int i = 0; i < count; ++i) {
         int nrows = (int)g.uni(2, 5), rowh = 8, nc = (int)g.uni(4, 24);
